@@ -341,5 +341,139 @@ theorem shapesEq_hole (X Y : List Blk) (k : Nat) (c : UInt8) (hc : c = 0x24 ∨ 
   rw [split_at X k _ hx, split_at Y k _ hy, h1]
   exact shapesEq_append (shapesEq_refl _) ⟨⟨rfl, by rw [if_pos hc]; exact hl⟩, h2⟩
 
+/-! ## a companion run that does not execute data blocks -/
+
+theorem ready_ctlEq {a b : Ssd} (h : CtlEq a b) (n : Nat) : ready a n = ready b n := by
+  unfold ready
+  rw [h.regs.asleep, h.regs.entry, h.regs.xs, h.regs.xe, h.regs.ys, h.regs.ye, h.regs.stride, h.regs.rows, h.cx, h.cy]
+
+/-- a data block that fills exactly the window from its origin leaves the control state as it was -/
+theorem feed_fill_ctlEq (s : Ssd) (c : UInt8) (hc : c = 0x24 ∨ c = 0x26) (data : List UInt8) (hw : WfSize s)
+    (hr : ready s data.length = true) : CtlEq (s.feed (.c c data)) s := by
+  simp only [ready, Bool.and_eq_true, Bool.not_eq_true', beq_iff_eq, decide_eq_true_eq] at hr
+  obtain ⟨⟨⟨⟨⟨⟨⟨⟨ha, h3⟩, hx⟩, hy⟩, hxs⟩, hrw⟩, hcx⟩, hcy⟩, hl⟩ := hr
+  rcases hc with h | h
+  · subst h
+    have := feed_c24_window_fill s data ha h3 hx hy hxs hrw hw.1 hw.2 hcx hcy hl
+    exact ⟨this.2.2.2.2, by rw [this.2.1.1, hcx], by rw [this.2.1.2, hcy]⟩
+  · subst h
+    have := feed_c26_window_fill s data ha h3 hx hy hxs hrw hw.1 hw.2 hcx hcy hl
+    exact ⟨this.2.2.2.2, by rw [this.2.1.1, hcx], by rw [this.2.1.2, hcy]⟩
+
+/-- the companion run: a RAM data block that is `ready` (fills its window from the origin) is
+    skipped — the control state after it is the state before it; any other block is fed -/
+def compRun : Ssd → List Blk → Option Ssd
+  | e, [] => some e
+  | e, .c c ps :: bs =>
+    if c = 0x24 ∨ c = 0x26 then (if ready e ps.length then compRun e bs else none)
+    else compRun (e.feed (.c c ps)) bs
+  | e, b :: bs => compRun (e.feed b) bs
+
+theorem compRun_sound : ∀ (bs bs0 : List Blk), ShapesEq bs bs0 → ∀ (r e e' : Ssd), CtlEq r e → WfSize r →
+    compRun e bs0 = some e' → CtlEq (bs.foldl feed r) e' ∧ WfSize (bs.foldl feed r)
+  | [], [], _, r, e, e', h, hw, hc => by
+    simp only [compRun, Option.some.injEq] at hc
+    exact ⟨hc ▸ h, hw⟩
+  | x :: xs, y :: ys, hs, r, e, e', h, hw, hc => by
+    simp only [List.foldl_cons]
+    have hw' := feed_wf r x hw
+    cases y with
+    | rst =>
+      simp only [compRun] at hc
+      exact compRun_sound xs ys hs.2 _ _ e' (feed_ctlEq h hs.1) hw' hc
+    | stray _ =>
+      simp only [compRun] at hc
+      exact compRun_sound xs ys hs.2 _ _ e' (feed_ctlEq h hs.1) hw' hc
+    | c c ps0 =>
+      cases x with
+      | rst => exact absurd hs.1 (by simp [ShapeEq])
+      | stray _ => exact absurd hs.1 (by simp [ShapeEq])
+      | c c' ps =>
+        obtain ⟨hcc, hp⟩ := hs.1
+        subst hcc
+        simp only [compRun] at hc
+        by_cases hr : c' = 0x24 ∨ c' = 0x26
+        · rw [if_pos hr] at hc hp
+          by_cases hrd : ready e ps0.length = true
+          · rw [if_pos hrd] at hc
+            have hrd' : ready r ps.length = true := by rw [ready_ctlEq h, hp]; exact hrd
+            exact compRun_sound xs ys hs.2 _ e e' ((feed_fill_ctlEq r c' hr ps hw hrd').trans h) hw' hc
+          · rw [if_neg hrd] at hc; cases hc
+        · rw [if_neg hr] at hc
+          exact compRun_sound xs ys hs.2 _ _ e' (feed_ctlEq h hs.1) hw' hc
+  | [], _ :: _, hs, _, _, _, _, _, _ => absurd hs (by simp [ShapesEq])
+  | _ :: _, [], hs, _, _, _, _, _, _ => absurd hs (by simp [ShapesEq])
+
+/-- the core of the end-to-end argument, for ANY companion state in `CtlEq` with the real state
+    at the moment the data block arrives -/
+theorem ssd_e2e_core (blocks : List Blk) (s0 : Ssd) (k : Nat) (c : UInt8) (data : List UInt8)
+    (hk : blocks[k]? = some (.c c data)) (hc : c = 0x24 ∨ c = 0x26) (comp : Ssd)
+    (hc1 : CtlEq ((blocks.take k).foldl feed s0) comp) (hw1 : WfSize ((blocks.take k).foldl feed s0))
+    (hready : ready comp data.length = true)
+    (hpost : (blocks.drop (k + 1)).all (fun b => !touches (planeOfCmd c) b) = true) :
+    ∀ (j : Nat) (hj : j < data.length),
+      (planeOf (planeOfCmd c) (blocks.foldl feed s0))[(comp.ys + j / (comp.xe - comp.xs + 1)) * comp.stride
+        + (comp.xs + j % (comp.xe - comp.xs + 1))]? = some data[j] := by
+  intro j hj
+  have hsplit := split_at blocks k _ hk
+  generalize hr1 : (blocks.take k).foldl feed s0 = r1 at hc1 hw1
+  have hrun : blocks.foldl feed s0 = (blocks.drop (k + 1)).foldl feed (r1.feed (.c c data)) := by
+    rw [hsplit, List.foldl_append, List.foldl_cons, hr1, ← hsplit]
+  rw [hrun, run_untouched _ _ _ hpost]
+  simp only [ready, Bool.and_eq_true, Bool.not_eq_true', beq_iff_eq, decide_eq_true_eq] at hready
+  obtain ⟨⟨⟨⟨⟨⟨⟨⟨ha, h3⟩, hx⟩, hy⟩, hxs⟩, hrw⟩, hcx⟩, hcy⟩, hl⟩ := hready
+  have e := hc1.regs
+  have ha' : r1.asleep = false := by rw [e.asleep]; exact ha
+  have h3' : r1.entry = 3 := by rw [e.entry]; exact h3
+  have key : ∀ (j : Nat) (hj : j < data.length),
+      (planeOf (planeOfCmd c) (r1.feed (.c c data)))[(r1.ys + j / (r1.xe - r1.xs + 1)) * r1.stride
+        + (r1.xs + j % (r1.xe - r1.xs + 1))]? = some data[j] := by
+    rcases hc with h24 | h26
+    · subst h24
+      have := feed_c24_window_fill r1 data ha' h3' (by rw [e.xs, e.xe]; exact hx) (by rw [e.ys, e.ye]; exact hy)
+        (by rw [e.xe, e.stride]; exact hxs) (by rw [e.ye, e.rows]; exact hrw) hw1.1 hw1.2
+        (by rw [hc1.cx, e.xs]; exact hcx) (by rw [hc1.cy, e.ys]; exact hcy)
+        (by rw [e.xs, e.xe, e.ys, e.ye]; exact hl)
+      exact this.2.2.1
+    · subst h26
+      have := feed_c26_window_fill r1 data ha' h3' (by rw [e.xs, e.xe]; exact hx) (by rw [e.ys, e.ye]; exact hy)
+        (by rw [e.xe, e.stride]; exact hxs) (by rw [e.ye, e.rows]; exact hrw) hw1.1 hw1.2
+        (by rw [hc1.cx, e.xs]; exact hcx) (by rw [hc1.cy, e.ys]; exact hcy)
+        (by rw [e.xs, e.xe, e.ys, e.ye]; exact hl)
+      exact this.2.2.1
+  have := key j hj
+  rw [e.xs, e.xe, e.ys, e.stride] at this
+  exact this
+
+/-- everything the kernel checks on the skipping companion, in one Boolean -/
+def skipReady (e0 : Ssd) (pre : List Blk) (n wb stride : Nat) : Bool :=
+  match compRun e0 pre with
+  | some c => ready c n && c.xs == 0 && c.ys == 0 && c.xe + 1 == wb && c.stride == stride
+  | none => false
+
+/-- the end-to-end theorem with the skipping companion and the window read off as numerals -/
+theorem ssd_e2e_skip (blocks blocks0 : List Blk) (hs : ShapesEq blocks blocks0) (s0 e0 : Ssd) (h0 : CtlEq s0 e0)
+    (hwf : WfSize s0) (k : Nat) (c : UInt8) (data : List UInt8) (hk : blocks[k]? = some (.c c data))
+    (hc : c = 0x24 ∨ c = 0x26) (n wb stride : Nat) (hn : data.length = n)
+    (hchk : skipReady e0 (blocks0.take k) n wb stride = true)
+    (hpost : (blocks0.drop (k + 1)).all (fun b => !touches (planeOfCmd c) b) = true) :
+    ∀ (j : Nat) (hj : j < data.length),
+      (planeOf (planeOfCmd c) (blocks.foldl feed s0))[(j / wb) * stride + j % wb]? = some data[j] := by
+  intro j hj
+  unfold skipReady at hchk
+  split at hchk
+  · rename_i comp hcomp
+    simp only [Bool.and_eq_true, beq_iff_eq] at hchk
+    obtain ⟨⟨⟨⟨hrd, hxs⟩, hys⟩, hxe⟩, hst⟩ := hchk
+    have snd := compRun_sound _ _ (ShapesEq.take k hs) s0 e0 comp h0 hwf hcomp
+    have hpost' : (blocks.drop (k + 1)).all (fun b => !touches (planeOfCmd c) b) = true := by
+      rw [all_untouched_shape _ (ShapesEq.drop (k + 1) hs)]; exact hpost
+    have := ssd_e2e_core blocks s0 k c data hk hc comp snd.1 snd.2 (by rw [hn]; exact hrd) hpost' j hj
+    rw [hxs, hys, hst] at this
+    have e : comp.xe - 0 + 1 = wb := by rw [← hxe]; omega
+    rw [e] at this
+    simpa using this
+  · cases hchk
+
 end Ssd
 end EpdVerif
